@@ -42,6 +42,15 @@ def _strip_not(e: ast.expr) -> Tuple[ast.expr, int]:
     return e, k % 2
 
 
+def _commutes(n: ast.AST) -> bool:
+    """a binary operation whose operands may be exchanged whatever their types: `*`, `&`, `^` (numbers, sets, sequence repetition), and
+    `+` / `|` when one operand is an integer literal (then it is integer arithmetic)"""
+    if not isinstance(n, ast.BinOp):
+        return False
+    lit = lambda e: isinstance(e, ast.Constant) and isinstance(e.value, int) and not isinstance(e.value, bool)
+    return isinstance(n.op, (ast.Mult, ast.BitAnd, ast.BitXor)) or (isinstance(n.op, (ast.Add, ast.BitOr)) and (lit(n.left) or lit(n.right)))
+
+
 def _h(x: Any) -> str:
     return hashlib.sha1(repr(x).encode()).hexdigest()[:12]
 
@@ -90,6 +99,8 @@ def _dump(e: Optional[ast.AST], mask: Dict[str, str]) -> Any:
         t, par = _strip_not(e.test)
         x, y = (e.body, e.orelse) if par == 0 else (e.orelse, e.body)
         return ('ifexp', _dump(t, mask), _dump(x, mask), _dump(y, mask))
+    if _commutes(e):
+        return ('comm', type(e.op).__name__) + tuple(sorted((repr(_dump(e.left, mask)), repr(_dump(e.right, mask)))))
     if isinstance(e, ast.AST):
         out: List[Any] = [type(e).__name__]
         for f, v in ast.iter_fields(e):
@@ -169,7 +180,7 @@ def _items(fn: ast.AST, locs: Set[str], mask: Dict[str, str]) -> Dict[str, List[
             elif isinstance(p, ast.Subscript):
                 ctx = ('sub', f, _dump(p.slice if f == 'value' else p.value, mask))
             elif isinstance(p, ast.BinOp):
-                ctx = ('binop', type(p.op).__name__, f, _dump(p.right if f == 'left' else p.left, mask))
+                ctx = ('binop', type(p.op).__name__, '' if _commutes(p) else f, _dump(p.right if f == 'left' else p.left, mask))
             elif isinstance(p, ast.Compare) and len(p.ops) == 1 and type(p.ops[0]) in _FAM:
                 # independent of which way round the comparison is written
                 fam, rev = _FAM[type(p.ops[0])]
@@ -549,6 +560,8 @@ def _kdump(e: Any) -> Any:
         return ('N', e.id)
     if isinstance(e, ast.Constant):
         return ('C', repr(e.value))
+    if _commutes(e):
+        return ('comm', type(e.op).__name__) + tuple(sorted((repr(_kdump(e.left)), repr(_kdump(e.right)))))
     if isinstance(e, ast.AST):
         out: List[Any] = [type(e).__name__]
         for f, v in ast.iter_fields(e):
@@ -563,11 +576,14 @@ def py_shapes(fn: ast.AST) -> Dict[str, Any]:
     """the orientation facts of one function: comparisons (key -> text of the left operand), if/else polarities (key -> parity of
     the leading nots), the keys of all if-tests"""
     cmps: Dict[str, Set[str]] = {}
+    comm: Dict[str, Set[str]] = {}
     ifs: Dict[str, Set[int]] = {}
     tests: Set[str] = set()
     for n in ast.walk(fn):
         if isinstance(n, ast.Compare) and len(n.ops) == 1 and type(n.ops[0]) in _FAM:
             cmps.setdefault(_h(_kdump(n)), set()).add(_h(_kdump(n.left)))
+        if _commutes(n):
+            comm.setdefault(_h(_kdump(n)), set()).add(_h(_kdump(n.left)))
         if isinstance(n, (ast.If, ast.IfExp)) and n.orelse:
             t, par = _strip_not(n.test)
             ifs.setdefault(_h(_kdump(t)), set()).add(par)
@@ -575,7 +591,7 @@ def py_shapes(fn: ast.AST) -> Dict[str, Any]:
             tests.add(_h(_kdump(_strip_not(n.test)[0])))
     locs = py_locals(fn)
     tests0 = sorted({_h(_mdump(_strip_not(n.test)[0], locs)) for n in ast.walk(fn) if isinstance(n, ast.If)})
-    return {'cmp': {k: sorted(v) for k, v in cmps.items()}, 'if': {k: sorted(v) for k, v in ifs.items()}, 'tests0': tests0}
+    return {'cmp': {k: sorted(v) for k, v in cmps.items()}, 'comm': {k: sorted(v) for k, v in comm.items()}, 'if': {k: sorted(v) for k, v in ifs.items()}, 'tests0': tests0}
 
 
 def _mdump(e: ast.AST, locs: Set[str]) -> Any:
@@ -606,14 +622,31 @@ def inline_named_conditions(fn: ast.AST, ref: Dict[str, Any]) -> int:
         i = 0
         while i < len(stmts):
             st = stmts[i]
-            nx = stmts[i + 1] if i + 1 < len(stmts) else None
-            if isinstance(st, ast.Assign) and len(st.targets) == 1 and isinstance(st.targets[0], ast.Name) and isinstance(nx, ast.If) \
-                    and isinstance(nx.test, ast.Name) and nx.test.id == st.targets[0].id and stores.get(nx.test.id) == 1 and loads.get(nx.test.id) == 1 \
-                    and _h(_mdump(_strip_not(st.value)[0], locs)) in tests:
-                nx.test = st.value
-                n_changes += 1
-                i += 1
-                continue
+            if isinstance(st, ast.Assign) and len(st.targets) == 1 and isinstance(st.targets[0], ast.Name) \
+                    and stores.get(st.targets[0].id) == 1 and loads.get(st.targets[0].id) == 1 and _h(_mdump(_strip_not(st.value)[0], locs)) in tests:
+                t = st.targets[0].id
+                # the `if` that tests it: the next statement, or a later one of the same block when nothing in between can change what
+                # the condition reads (the condition itself must be free of effects then)
+                reads = {ast.unparse(x) for x in ast.walk(st.value) if isinstance(x, (ast.Name, ast.Attribute))}
+                pure_val = not any(isinstance(x, ast.Call) and not (isinstance(x.func, ast.Name) and x.func.id in ('isinstance', 'len', 'bool', 'int', 'abs', 'min', 'max'))
+                                   for x in ast.walk(st.value))
+                has_attr = any(isinstance(x, (ast.Attribute, ast.Subscript)) for x in ast.walk(st.value))
+                j = i + 1
+                okj = True
+                while j < len(stmts) and not (isinstance(stmts[j], ast.If) and isinstance(stmts[j].test, ast.Name) and stmts[j].test.id == t):
+                    mid = stmts[j]
+                    writes = {ast.unparse(x) for x in ast.walk(mid) if isinstance(x, (ast.Name, ast.Attribute, ast.Subscript)) and isinstance(getattr(x, 'ctx', None), ast.Store)}
+                    calls_ = any(isinstance(x, ast.Call) for x in ast.walk(mid))
+                    if not pure_val or not isinstance(mid, (ast.Assign, ast.AugAssign, ast.AnnAssign, ast.Expr)) or (calls_ and has_attr) \
+                            or any(r_ == w_ or r_.startswith(w_ + '.') or w_.startswith(r_ + '.') or w_.startswith(r_ + '[') for r_ in reads for w_ in writes):
+                        okj = False
+                        break
+                    j += 1
+                if okj and j < len(stmts):
+                    stmts[j].test = st.value          # type: ignore[attr-defined]
+                    n_changes += 1
+                    i += 1
+                    continue
             out.append(st)
             i += 1
         return out
@@ -651,6 +684,13 @@ def unspell_py(fn: ast.AST, ref: Dict[str, Any]) -> int:
                 if fam in ('lt', 'le'):
                     node.ops = [_UNFAM[(fam, 1 - rev)]()]
                 n_changes += 1
+    # (4) operands of a commutative operation
+    for node in ast.walk(fn):
+        if _commutes(node):
+            want = ref.get('comm', {}).get(_h(_kdump(node)))
+            if want is not None and len(want) == 1 and want[0] != _h(_kdump(node.left)) and want[0] == _h(_kdump(node.right)):      # type: ignore[attr-defined]
+                node.left, node.right = node.right, node.left                          # type: ignore[attr-defined]
+                n_changes += 1
     if n_changes:
         ast.fix_missing_locations(fn)
     return n_changes
@@ -679,11 +719,37 @@ def _c_cmp_key(n: Dict[str, Any], pm: Dict[str, str]) -> Optional[Tuple[str, str
     return key, _h(a)
 
 
+_C_COMM = ('*', '&', '^', '|', '+')
+_C_PREC = {'*': 10, '/': 10, '%': 10, '+': 9, '-': 9, '<<': 8, '>>': 8, '<': 7, '>': 7, '<=': 7, '>=': 7, '==': 6, '!=': 6, '&': 5, '^': 4, '|': 3, '&&': 2, '||': 1}
+
+
+def _c_needs_parens(k_: Dict[str, Any], parent_op: str, left: bool) -> bool:
+    """does the operand (as written, possibly under implicit casts) need parentheses as the left / right operand of parent_op"""
+    while k_.get('kind') == 'ImplicitCastExpr' and k_.get('inner'):
+        k_ = [c for c in k_['inner'] if isinstance(c, dict)][0]
+    if k_.get('kind') == 'ConditionalOperator':
+        return True
+    if k_.get('kind') != 'BinaryOperator':
+        return False
+    pc, pp = _C_PREC.get(k_.get('opcode'), 0), _C_PREC.get(parent_op, 0)
+    return pc < pp or (pc == pp and not left)
+
+
+def _c_comm_key(n: Dict[str, Any], pm: Dict[str, str]) -> Optional[Tuple[str, str]]:
+    if n.get('kind') != 'BinaryOperator' or n.get('opcode') not in _C_COMM:
+        return None
+    kids = [c for c in n.get('inner', []) if isinstance(c, dict)]
+    if len(kids) != 2:
+        return None
+    a, b = _c_dump(kids[0], pm), _c_dump(kids[1], pm)
+    return _h(('comm', n['opcode']) + tuple(sorted((repr(a), repr(b))))), _h(a)
+
+
 def c_shapes(fn: Dict[str, Any]) -> Dict[str, List[str]]:
     pm = {c.get('name'): f'P{i}' for i, c in enumerate(x for x in fn.get('inner', []) if isinstance(x, dict) and x.get('kind') == 'ParmVarDecl') if c.get('name')}
     out: Dict[str, Set[str]] = {}
     for n in _c_walk(fn):
-        k = _c_cmp_key(n, pm)
+        k = _c_cmp_key(n, pm) or _c_comm_key(n, pm)
         if k:
             out.setdefault(k[0], set()).add(k[1])
     return {k: sorted(v) for k, v in out.items()}
@@ -709,7 +775,7 @@ def unflip_c(text: str, tu: Dict[str, Any], rel: str) -> Optional[str]:
             continue
         pm = {c.get('name'): f'P{i}' for i, c in enumerate(x for x in fn.get('inner', []) if isinstance(x, dict) and x.get('kind') == 'ParmVarDecl') if c.get('name')}
         for n in _c_walk(fn):
-            k = _c_cmp_key(n, pm)
+            k = _c_cmp_key(n, pm) or _c_comm_key(n, pm)
             if not k:
                 continue
             want = shapes.get(k[0])
@@ -719,11 +785,31 @@ def unflip_c(text: str, tu: Dict[str, Any], rel: str) -> Optional[str]:
             sa, sb, sn = _c_span(kids[0]), _c_span(kids[1]), _c_span(n)
             if not (sa and sb and sn) or text[sa[1]:sb[0]].strip() != n['opcode']:
                 continue
-            fam, rev = _CFAM[n['opcode']]
-            op = _CUNFAM[(fam, 1 - rev)] if fam in ('lt', 'le') else n['opcode']
-            edits.append((sn[0], sn[1], f'{text[sb[0]:sb[1]]} {op} {text[sa[0]:sa[1]]}'))
+            if n['opcode'] in _CFAM:
+                fam, rev = _CFAM[n['opcode']]
+                op = _CUNFAM[(fam, 1 - rev)] if fam in ('lt', 'le') else n['opcode']
+            else:
+                op = n['opcode']
+            ta, tb = text[sa[0]:sa[1]], text[sb[0]:sb[1]]
+            if n['opcode'] in _C_COMM:
+                # an operand that is itself a binary operation keeps its grouping
+                # the old right operand becomes the left one and vice versa: parenthesise only where the grouping would change
+                def operand_text(k_: Dict[str, Any], txt: str, left: bool) -> str:
+                    c_ = k_
+                    while c_.get('kind') == 'ImplicitCastExpr' and c_.get('inner'):
+                        c_ = [x for x in c_['inner'] if isinstance(x, dict)][0]
+                    if c_.get('kind') == 'ParenExpr' and c_.get('inner'):
+                        inner_ = [x for x in c_['inner'] if isinstance(x, dict)][0]
+                        sp_ = _c_span(inner_)
+                        if sp_ and not _c_needs_parens(inner_, n['opcode'], left=left):
+                            return text[sp_[0]:sp_[1]]              # parentheses that the new position does not need
+                        return txt
+                    return f'({txt})' if _c_needs_parens(k_, n['opcode'], left=left) else txt
+                tb = operand_text(kids[1], tb, True)
+                ta = operand_text(kids[0], ta, False)
+            edits.append((sn[0], sn[1], f'{tb} {op} {ta}'))
     kept: List[Tuple[int, int, str]] = []
-    for e_ in sorted(edits, key=lambda t: (t[0], -t[1])):
+    for e_ in sorted(edits, key=lambda t: (t[1] - t[0])):              # innermost (shortest) first; an enclosing edit waits for the next round
         if all(e_[0] >= k_[1] or e_[1] <= k_[0] for k_ in kept):
             kept.append(e_)
     if not kept:
